@@ -12,6 +12,7 @@ rounds.  Each property's command enables its own statement mix and reports
 only violations of its own clauses.
 """
 import copy
+import os
 import re
 import math
 
@@ -1334,6 +1335,28 @@ class CallbackFault(Exception):
     pass
 
 
+_PARSER_CODE = {}
+
+
+def _new_parser(env, name, caller=None):
+    """DIP(env, name=name), created by "a script" whose file name is `caller` (the parser asks
+    the interpreter which file created it and resolves relative paths against that file)."""
+    if not caller:
+        return DIP(env, name=name) if env is not None else DIP(name=name)
+    code = _PARSER_CODE.get(caller)
+    if code is None:
+        code = _PARSER_CODE[caller] = compile(
+            "DIP(env, name=name) if env is not None else DIP(name=name)", caller, "eval")
+    return eval(code, {"DIP": DIP, "env": env, "name": name})
+
+
+def _render(st, caller):
+    if caller and st["k"] == "source" and st.get("rel") and \
+            os.path.dirname(st["path"]) == os.path.dirname(caller):
+        return DM.render(dict(st, path=os.path.basename(st["path"])))
+    return DM.render(st)
+
+
 def make_callback(st, stats):
     """The user function behind `name T = (fname)`: the callback seam of the DIP parser."""
     fn = st["fn"]
@@ -1531,6 +1554,10 @@ class DipStoreMachine(Machine):
             path = rng.choice(sorted(self.files))      # replace content
         else:
             path = f"{ROOT}f{n + 1}" + (".dip" if rng.random() < 0.7 else ".txt")
+            if path.endswith(".txt") and rng.random() < 0.5:
+                # text files of two "projects": the same few names in two directories, so that a
+                # relative path means another file for a script of the other project
+                path = ROOT + rng.choice(["projA/", "projB/"]) + rng.choice(["notes.txt", "data.txt"])
         if path.endswith(".dip") and rng.random() < 0.15:
             # a file of modifications only (the documented way of keeping run settings apart):
             # as a source its lines are untyped values that references pick up with their unit
@@ -1665,6 +1692,18 @@ class DipStoreMachine(Machine):
         if rng.random() < 0.15:
             # the parser is used as a context manager and asked to parse after its block
             op["with_block"] = True
+        rel = [st for c in out if c["via"] == "string" for st in c["stmts"]
+               if st["k"] == "source" and st["path"].endswith(".txt") and st.get("ref") is None]
+        if rel and rng.random() < 0.6:
+            # the script that creates this round's parser lives in the directory of one of the
+            # text files, and names the text files of its directory by relative paths (resolved
+            # against the creating script - also when the parser is chained on an environment
+            # that a script of another directory produced)
+            d = os.path.dirname(rng.choice(rel)["path"])
+            op["caller"] = d + "/run.py"
+            for st in rel:
+                if os.path.dirname(st["path"]) == d:
+                    st["rel"] = True
         if rng.random() < 0.12:
             # a second parser object is alive while this round runs: it was given the text of an
             # earlier committed round (same base) and parses during or after this round
@@ -1949,7 +1988,9 @@ class DipStoreMachine(Machine):
         sib = self._sibling_open(op, name, base)
         p = None
         try:
-            p = DIP(base["env"], name=name) if base else DIP(name=name)
+            p = _new_parser(base["env"] if base else None, name, op.get("caller"))
+            if op.get("caller"):
+                self.stats.probe("parser_created_by_a_script_of_another_directory")
             if op.get("with_block"):
                 p.__enter__()
             for st in all_stmts:
@@ -1963,7 +2004,7 @@ class DipStoreMachine(Machine):
                 except Exception:
                     refused = True
                 self.stats.fault("malformed_text_then_retry_on_the_same_parser", refused)
-            self._feed(p, chunks)
+            self._feed(p, chunks, op.get("caller"))
             if op.get("with_block"):
                 p.__exit__(None, None, None)
             if sib and sib["when"] == "middle":
@@ -1980,7 +2021,7 @@ class DipStoreMachine(Machine):
                         for st in stmts:
                             if st["k"] == "fn":
                                 p.add_function(st["fname"], make_callback(st, self.stats))
-                    self._feed(p, sib["chunks"])
+                    self._feed(p, sib["chunks"], op.get("caller"))
                 except Exception as e:
                     sib["got"], sib["error"] = "abort", e
             self._sibling_parse(sib)
@@ -2104,7 +2145,7 @@ class DipStoreMachine(Machine):
                 out.append((c, c["stmts"]))
         return out
 
-    def _feed(self, p, chunks):
+    def _feed(self, p, chunks, caller=None):
         for c, stmts in chunks:
             if c["via"] == "file":
                 p.add_file(c["path"])
@@ -2116,7 +2157,7 @@ class DipStoreMachine(Machine):
                         p.add_source(st["name"], st["path"])
                 self.stats.probe("definitions_through_python_api")
             else:
-                p.add_string("\n".join(DM.render(st) for st in stmts))
+                p.add_string("\n".join(_render(st, caller) for st in stmts))
 
     def _sibling_open(self, op, name, base=None):
         """A second session: the text of an earlier committed round is handed once more to a
@@ -2140,7 +2181,8 @@ class DipStoreMachine(Machine):
             # no second parser: this round's own parser object parses a second time.  A parser
             # starts from its base every time it is asked (probed on the pinned tree), so the
             # text of an earlier round on the same base must give that round's environment again
-            if rec["base_rec"] is not base or any(c["via"] != "string" for c, _ in chunks):
+            if rec["base_rec"] is not base or any(c["via"] != "string" for c, _ in chunks) or \
+                    rec["op"].get("caller") != op.get("caller"):
                 self.stats.fault("parser_object_parses_a_second_text", False)
                 return None
             sib.update(same_object=True, chunks=chunks)
@@ -2149,12 +2191,12 @@ class DipStoreMachine(Machine):
             return sib
         try:
             b = rec["base_rec"]
-            sp = DIP(b["env"], name=name + "sib") if b else DIP(name=name + "sib")
+            sp = _new_parser(b["env"] if b else None, name + "sib", rec["op"].get("caller"))
             for c, stmts in chunks:
                 for st in stmts:
                     if st["k"] == "fn":
                         sp.add_function(st["fname"], make_callback(st, self.stats))
-            self._feed(sp, chunks)
+            self._feed(sp, chunks, rec["op"].get("caller"))
             sib["parser"] = sp
         except Exception as e:
             sib["got"], sib["error"] = "abort", e
@@ -2324,6 +2366,8 @@ class DipStoreMachine(Machine):
                 yield dict(op, docs_first=False)
             if op.get("straddle"):
                 yield dict(op, straddle=None)
+            if op.get("caller"):
+                yield dict(op, caller=None)
             if op.get("settings_first") and len(ch) > 1:
                 yield dict(op, settings_first=False, chunks=ch[1:])
             if op.get("base", -1) >= 0:
